@@ -60,7 +60,7 @@ var sharedErrors = []*common.ErrorResponse{
 	{},
 }
 
-var kinds = []string{"get", "get-sub", "create", "update", "partial_update", "delete", "batch_get", "batch_delete", "finder", "action", "entity-action", "get_all", "get-long", "simple-get", "batch_update", "batch_update-long"}
+var kinds = []string{"deep-x", "deep-y", "get", "get-sub", "create", "update", "partial_update", "delete", "batch_get", "batch_delete", "finder", "action", "entity-action", "get_all", "get-long", "simple-get", "batch_update", "batch_update-long"}
 var outcomes = []string{"ok", "ok", "status", "error-response", "shared-error", "plain-error", "panic"}
 
 // Cases builds the request list for a seed.
@@ -76,6 +76,8 @@ func Cases(seed int64, n int) []Req {
 // World is one server + one shared client.
 type World struct {
 	srv    *http.Server
+	late   func(i int)
+	segs   map[string]string // request kind -> resource path segment chain a filter must see
 	rec    *kit.Recorder
 	flog   *kit.FilterLog
 	shared *kit.SharedClient
@@ -132,22 +134,70 @@ func NewWorld(reqs []Req, mounting string) (*World, error) {
 		Methods:  []string{"get", "update", "delete"},
 		Actions:  []kit.ActionSpec{{Name: "reset"}},
 	}, w.rec)
-	ln, err := net.Listen("tcp", "127.0.0.1:0")
-	if err != nil {
-		return nil, err
+	// two sibling leaves below a chain of three simple resources (nesting depth 4)
+	deep := []kit.Segment{{Name: "single"}, {Name: "alpha"}, {Name: "beta"}}
+	deepX := append(append([]kit.Segment(nil), deep...), kit.Segment{Name: "xleaf"})
+	deepY := append(append([]kit.Segment(nil), deep...), kit.Segment{Name: "yleaf"})
+	kit.Register(s, kit.ResourceSpec{Segments: deepX, Methods: []string{"get"}}, w.rec)
+	kit.Register(s, kit.ResourceSpec{Segments: deepY, Methods: []string{"get"}}, w.rec)
+	things := []kit.Segment{{Name: "things", IsCollection: true}}
+	parts := []kit.Segment{{Name: "things", IsCollection: true}, {Name: "parts", IsCollection: true}}
+	single := []kit.Segment{{Name: "single"}}
+	w.segs = map[string]string{"deep-x": kit.SegmentsString(deepX), "deep-y": kit.SegmentsString(deepY), "get-sub": kit.SegmentsString(parts), "simple-get": kit.SegmentsString(single)}
+	for _, k := range kinds {
+		if _, ok := w.segs[k]; !ok {
+			w.segs[k] = kit.SegmentsString(things)
+		}
 	}
-	w.srv = &http.Server{Handler: s.Handler()}
-	go w.srv.Serve(ln)
+	// registrations made on the Server after Handler() was taken: resources the handler already knows get further
+	// finders and actions; the handler is a snapshot and keeps serving
+	w.late = func(i int) {
+		switch i % 3 {
+		case 0:
+			kit.Register(s, kit.ResourceSpec{Segments: things, Finders: []string{fmt.Sprintf("late%d", i)}}, w.rec)
+		case 1:
+			kit.Register(s, kit.ResourceSpec{Segments: parts, Actions: []kit.ActionSpec{{Name: fmt.Sprintf("late%d", i)}}}, w.rec)
+		default:
+			kit.Register(s, kit.ResourceSpec{Segments: single, Actions: []kit.ActionSpec{{Name: fmt.Sprintf("late%d", i)}}}, w.rec)
+		}
+	}
+	handler := s.Handler()
 	prefix := ""
 	if mounting == "prefixed" {
 		prefix = "/api"
 	}
+	if mounting == "inproc" {
+		base, _ := url.Parse("http://inproc.invalid")
+		w.shared = kit.NewSharedClient(base, 300, false, kit.InProc{H: handler})
+		return w, nil
+	}
+	ln, err := net.Listen("tcp", "127.0.0.1:0")
+	if err != nil {
+		return nil, err
+	}
+	w.srv = &http.Server{Handler: handler}
+	go w.srv.Serve(ln)
 	base, _ := url.Parse("http://" + ln.Addr().String() + prefix)
 	w.shared = kit.NewSharedClient(base, 300, false, &http.Transport{MaxIdleConnsPerHost: 64})
 	return w, nil
 }
 
-func (w *World) Close() { w.srv.Close() }
+func (w *World) Close() {
+	if w.srv != nil {
+		w.srv.Close()
+	}
+}
+
+// LateRegister performs the i-th registration on the Server the handler was taken from.
+func (w *World) LateRegister(i int) (problem string) {
+	defer func() {
+		if p := recover(); p != nil {
+			problem = fmt.Sprint(p)
+		}
+	}()
+	w.late(i)
+	return ""
+}
 
 func showBatch(b *kit.BatchResult) string {
 	if b == nil {
@@ -172,6 +222,12 @@ func (w *World) do(r Req) (result string, wire *kit.Wire, err error) {
 	switch r.Kind {
 	case "get":
 		v, wr, e := t.Get("things", "/things/"+tk, &q)
+		if v != nil {
+			result = string(v.JSON)
+		}
+		return result, wr, e
+	case "deep-x", "deep-y":
+		v, wr, e := t.Get("single", "/single/alpha/beta/"+r.Kind[5:]+"leaf", &q)
 		if v != nil {
 			result = string(v.JSON)
 		}
@@ -346,6 +402,9 @@ func (w *World) Execute(reqs []Req, goroutines int, seed int64) map[string]*Rec 
 		}
 		j, _ := json.Marshal(fe)
 		rec.Filters = append(rec.Filters, string(j))
+		if r, ok := w.reqs[fe.ReqID]; ok && fe.Phase == "pre" && fe.Segments != w.segs[r.Kind] {
+			rec.Filters = append(rec.Filters, fmt.Sprintf("WRONG-SEGMENTS filter %d saw %q, the request is for %q", fe.Filter, fe.Segments, w.segs[r.Kind]))
+		}
 	}
 	for _, rec := range out {
 		sort.Strings(rec.Invocations)
